@@ -1,16 +1,32 @@
 """C14 - every unrecognised atom is explained by a known modification or reported.
 
-spec/PTM.tla        groups of unexplained atoms (Components / AnchorsOf), candidate placements (induced embeddings: anchors by
-                    name on recognised atoms, added atoms by element on unexplained atoms), exact covers, JudgeCall / JudgeRun
+spec/PTM.tla        groups of extra atoms (Components / AnchorsOf), candidate placements (induced embeddings: anchors by name on
+                    recognised atoms, added atoms by element on unexplained atoms), ALL exact covers (Exact), the documented
+                    preference for larger modifications (Better), REQUESTED modifications (atoms RepairGraph pre-labelled because
+                    -modify / -nter / -cter asked for them: placed by name on exactly their atoms), `replace` of any attribute
+                    (also to None), residues = (chain, resid, resname, insertion code), JudgeCall / JudgeRun, Note
 spec/Trace_PTM.tla  TLC judges recorded runs of the real CanonicalizeModifications with identify_ptms interposed
+harness/c14_real.py generic projection of real Molecule / Modification objects, PDB editing, the martinize2 front end in-process
 
-Generated: peptide-like molecules of 1-4 residues carrying unexplained atoms, and a library of modifications that are
-sub-patterns of one another, that share elements but differ in connectivity, that span two residues, two on one residue,
-with renaming of anchors and of added atoms; atoms that match nothing."""
-import logging
+Families (all judged by the same JudgeRun):
+  synthetic  peptide-like molecules of 1-4 residues carrying hand-flagged atoms against a library of 11 modifications: sub-patterns
+             of one another (PO < PHOS < PO3; only the larger fits), same elements / different connectivity (PHOS / OPH), a
+             placement that must be undone (DIOL blocks OH + OPH), a ring in which OPH / PHOS are subgraphs but not induced
+             ones, the same modification twice on one anchor, bridges over two and over THREE residues, two bridges on the same
+             pair of residues, two bridges sharing one residue (atoms in the outer residues), renaming of anchors and of added
+             atoms, atoms that match nothing, residues sharing a number (another chain, an insertion code) in one molecule
+  requested  the same residues with a `modification` request (what AnnotateMutMod writes) taken through the REAL RepairGraph:
+             requested atoms present under other names / partly present / absent (rebuilt), one or two requests per residue,
+             an anchor renamed by `replace`, unrecognised atoms next to a request (RepairGraph drops them), unrequested
+             modifications on the other residues
+  real       bin/martinize2's front end on shipped structures with the shipped charmm modifications: default / neutral / no /
+             `none` termini, protonation states, phosphotyrosine, atoms nothing explains, -modify requests, several at once,
+             terminus + side chain on one residue, two chains in one molecule"""
+import copy
 import multiprocessing as mp
 import random
 
+from . import c14_real as R
 from . import common, tlc
 
 PID = 'C14'
@@ -27,7 +43,14 @@ TEMPLATES = [
     {'name': 'NME', 'nodes': [('a', 'N', 'N', False, ''), ('c', 'CN', 'C', True, '')], 'edges': [('a', 'c')]},
     {'name': 'BRIDGE', 'nodes': [('a', 'CB', 'C', False, ''), ('b', 'CB', 'C', False, ''), ('s', 'SB', 'S', True, '')], 'edges': [('a', 's'), ('s', 'b')]},
     {'name': 'CTER', 'nodes': [('a', 'C', 'C', False, 'CT'), ('o', 'OXT', 'O', True, '')], 'edges': [('a', 'o')]},     # the only template anchored on C: renaming the anchor cannot hide it from another template
+    {'name': 'PO3', 'nodes': [('a', 'CB', 'C', False, ''), ('p', 'P', 'P', True, ''), ('o1', 'O1P', 'O', True, ''), ('o2', 'O2P', 'O', True, ''), ('o3', 'O3P', 'O', True, '')],
+     'edges': [('a', 'p'), ('p', 'o1'), ('p', 'o2'), ('p', 'o3')]},
+    {'name': 'DIOL', 'nodes': [('a', 'CB', 'C', False, ''), ('o1', 'OD1', 'O', True, ''), ('o2', 'OD2', 'O', True, '')], 'edges': [('a', 'o1'), ('a', 'o2')]},
+    {'name': 'TRI', 'nodes': [('a', 'CB', 'C', False, ''), ('b', 'CB', 'C', False, ''), ('c', 'CB', 'C', False, ''), ('x', 'BX', 'B', True, '')],
+     'edges': [('a', 'x'), ('b', 'x'), ('c', 'x')]},
+    {'name': 'ABRIDGE', 'nodes': [('a', 'CA', 'C', False, ''), ('b', 'CA', 'C', False, ''), ('s', 'SE', 'Se', True, '')], 'edges': [('a', 's'), ('s', 'b')]},
 ]
+TNAMES = [t['name'] for t in TEMPLATES]
 # decorations: (anchor atom name, [(element, bonded to: 'anchor' | index of an earlier decoration atom)])
 DECOR = {
     'phos': ('CB', [('P', 'anchor'), ('O', 0)]),
@@ -40,20 +63,27 @@ DECOR = {
     'unknown-chain': ('CB', [('O', 'anchor'), ('O', 0), ('O', 1)]),
     'phos-extra': ('CB', [('P', 'anchor'), ('O', 0), ('O', 0)]),
     'nme-twice': ('N', [('C', 'anchor'), ('C', 'anchor')]),          # the same modification placed twice on one anchor
-    'oh-twice': ('CB', [('O', 'anchor'), ('O', 'anchor')]),
+    'oh-twice': ('CB', [('O', 'anchor'), ('O', 'anchor')]),          # DIOL, or OH twice: the larger is preferred
+    'po3': ('CB', [('P', 'anchor'), ('O', 0), ('O', 0), ('O', 0)]),  # PO, PHOS are sub-patterns: only PO3 leaves nothing over
+    'oh-oph': ('CB', [('O', 'anchor'), ('O', 'anchor'), ('P', 1)]),  # DIOL fits and must be undone: only OH + OPH cover the P
+    'ring': ('CB', [('O', 'anchor'), ('P', ['anchor', 0])]),         # CB-O-P-CB: OPH / PHOS are subgraphs but not INDUCED ones; OH + PO is the cover
 }
+# what may be REQUESTED on a residue (one anchor each; BRIDGE-like templates cannot be patched onto one reference block)
+REQUESTABLE = ['PHOS', 'PO', 'OH', 'OPH', 'NME', 'CTER', 'PO3', 'DIOL']
 
 
-def make_case(rng):
-    nres = rng.randint(1, 4)
-    nodes, edges = [], []
+def _peptide(rng, nres, collide=''):
+    nodes, edges, byres = [], [], []
     key = rng.choice([0, 7])
-    byres = []
     resid = rng.choice([1, 10])
+    chain, icode = 'A', ''
     for r in range(nres):
+        if collide and r == nres // 2 and r > 0:                    # residues sharing a number with an earlier one (bonded to it):
+            resid = nodes[0]['resid']                               # a second chain whose numbering starts again, or inserted residues
+            chain, icode = ('B', '') if collide == 'chain' else ('A', 'A')
         names = {}
         for name, el in BASE:
-            nodes.append({'id': key, 'resid': resid, 'name': name, 'el': el, 'ptm': False})
+            nodes.append({'id': key, 'resid': resid, 'chain': chain, 'icode': icode, 'name': name, 'el': el, 'ptm': False})
             names[name] = key
             key += 1
         for a, b in BASE_EDGES:
@@ -62,9 +92,54 @@ def make_case(rng):
             edges.append([byres[-1]['C'], names['N']])
         byres.append(names)
         resid += rng.choice([1, 1, 3])
-    used = []
-    junk = 0
+    return nodes, edges, byres, key
+
+
+def make_case(rng):
+    nres = rng.randint(1, 4)
+    collide = rng.choice(['chain', 'icode']) if nres >= 2 and rng.random() < 0.12 else ''
+    nodes, edges, byres, key = _peptide(rng, nres, collide)
+    info = {n['id']: n for n in nodes}
+    used = ['same-number-other-' + collide] if collide else []
+    junk = [0]
+
+    def new_atom(res_of, el, bonded):
+        nonlocal key
+        junk[0] += 1
+        src = info[res_of]
+        n = {'id': key, 'resid': src['resid'], 'chain': src['chain'], 'icode': src['icode'], 'name': 'X%d' % junk[0], 'el': el, 'ptm': True}
+        nodes.append(n)
+        info[key] = n
+        for b in bonded:
+            edges.append([b, key])
+        key += 1
+        return key - 1
+    # bridges first: an atom bonded to recognised atoms of two or three residues
+    bridged = set()
+    plan = rng.random()
+    if len(byres) >= 2 and plan < 0.25:             # a sulfur bridging the CB atoms of two residues
+        a, b = rng.sample(range(len(byres)), 2)
+        new_atom(byres[a]['CB'], 'S', [byres[a]['CB'], byres[b]['CB']])
+        used.append('bridge')
+        bridged = {a, b}
+        if rng.random() < 0.3:                       # and a second bridge between the same two residues (same group key)
+            new_atom(byres[b]['CA'], 'Se', [byres[a]['CA'], byres[b]['CA']])
+            used.append('bridge-same-pair')
+    elif len(byres) >= 3 and plan < 0.45:           # one atom bonded to the CB atoms of three residues
+        a, b, c = rng.sample(range(len(byres)), 3)
+        new_atom(byres[rng.choice([a, b, c])]['CB'], 'B', [byres[a]['CB'], byres[b]['CB'], byres[c]['CB']])
+        used.append('tri-bridge')
+        bridged = {a, b, c}
+    elif len(byres) >= 3 and plan < 0.65:           # two bridges sharing the middle residue, each atom listed with an OUTER residue
+        a, b, c = rng.sample(range(len(byres)), 3)
+        new_atom(byres[a]['CB'], 'S', [byres[a]['CB'], byres[b]['CB']])
+        new_atom(byres[c]['CA'], 'Se', [byres[b]['CA'], byres[c]['CA']])
+        used.append('bridges-sharing-a-residue')
+        bridged = {a, b, c}
+    clean = rng.random() < 0.5                       # no other decoration on a bridged residue
     for r, names in enumerate(byres):
+        if clean and r in bridged:
+            continue
         k = rng.choice([0, 1, 1, 2])
         anchors_used = set()
         for _ in range(k):
@@ -75,32 +150,14 @@ def make_case(rng):
             anchors_used.add(anchor)
             new = []
             for el, to in atoms:
-                junk += 1
-                nodes.append({'id': key, 'resid': nodes[[n['id'] for n in nodes].index(names[anchor])]['resid'], 'name': 'X%d' % junk, 'el': el, 'ptm': True})
-                edges.append([names[anchor] if to == 'anchor' else new[to], key])
-                new.append(key)
-                key += 1
+                new.append(new_atom(names[anchor], el, [names[anchor] if x == 'anchor' else new[x] for x in (to if isinstance(to, list) else [to])]))
             used.append(d)
     if rng.random() < 0.25:                          # unexplained atoms bonded to nothing recognised (an ion, a hydroxide)
         r = rng.randrange(len(byres))
-        rid = nodes[[n['id'] for n in nodes].index(byres[r]['CA'])]['resid']
-        junk += 1
-        nodes.append({'id': key, 'resid': rid, 'name': 'X%d' % junk, 'el': rng.choice(['O', 'Z']), 'ptm': True})
-        key += 1
+        a = new_atom(byres[r]['CA'], rng.choice(['O', 'Z']), [])
         if rng.random() < 0.5:
-            junk += 1
-            nodes.append({'id': key, 'resid': rid, 'name': 'X%d' % junk, 'el': 'H', 'ptm': True})
-            edges.append([key - 1, key])
-            key += 1
+            new_atom(byres[r]['CA'], 'H', [a])
         used.append('floating')
-    if len(byres) >= 2 and rng.random() < 0.3:      # a sulfur bridging the CB atoms of two residues
-        a, b = rng.sample(range(len(byres)), 2)
-        junk += 1
-        nodes.append({'id': key, 'resid': nodes[[n['id'] for n in nodes].index(byres[a]['CB'])]['resid'], 'name': 'X%d' % junk, 'el': 'S', 'ptm': True})
-        edges.append([byres[a]['CB'], key])
-        edges.append([byres[b]['CB'], key])
-        key += 1
-        used.append('bridge')
     tsel = [t for t in TEMPLATES if rng.random() < 0.8]
     rng.shuffle(tsel)
     order = list(range(len(nodes)))
@@ -109,49 +166,75 @@ def make_case(rng):
     return {'nodes': nodes, 'edges': edges, 'insertion': [nodes[i]['id'] for i in order]}, tsel, used
 
 
-def _groups(mol):
-    """Groups of unexplained atoms with the sorted residue numbers of their anchors (harness-side, for the signature only)."""
-    import networkx as nx
-    g = nx.Graph()
-    g.add_nodes_from(n['id'] for n in mol['nodes'])
-    g.add_edges_from(mol['edges'])
-    info = {n['id']: n for n in mol['nodes']}
-    flagged = {n['id'] for n in mol['nodes'] if n['ptm']}
-    out = []
-    for comp in nx.connected_components(g.subgraph(flagged)):
-        anchors = {b for a in comp for b in g[a] if b not in flagged}
-        out.append((comp, sorted(info[a]['resid'] for a in anchors)))
-    return out
+def make_requested_case(rng):
+    """Residues with `modification` requests; the atoms of a requested modification are present under other names, partly
+    present or absent; unrecognised atoms may sit next to a request; other residues carry unrequested decorations."""
+    nres = rng.randint(1, 3)
+    nodes, edges, byres, key = _peptide(rng, nres)
+    info = {n['id']: n for n in nodes}
+    used = []
+    junk = [0]
+    tdict = {t['name']: t for t in TEMPLATES}
+
+    def new_atom(res_of, el, bonded):
+        nonlocal key
+        junk[0] += 1
+        src = info[res_of]
+        n = {'id': key, 'resid': src['resid'], 'chain': src['chain'], 'icode': src['icode'], 'name': 'X%d' % junk[0], 'el': el, 'ptm': False}
+        nodes.append(n)
+        info[key] = n
+        for b in bonded:
+            edges.append([b, key])
+        key += 1
+        return key - 1
+    requests = {}
+    for r, names in enumerate(byres):
+        if rng.random() < 0.7:
+            want = rng.sample(REQUESTABLE, rng.choice([1, 1, 1, 1, 1, 2]))
+            anchors = [tdict[w]['nodes'][0][1] for w in want]
+            if len(set(anchors)) != len(anchors):
+                want = want[:1]                                     # two requests on one anchor are not generated (atom names would repeat)
+            requests[r] = want
+            for w in want:
+                t = tdict[w]
+                how = rng.choice(['present', 'present', 'absent', 'partial'])
+                keyof = {t['nodes'][0][0]: names[t['nodes'][0][1]]}
+                todo = [n for n in t['nodes'] if n[3]]
+                if how == 'partial':
+                    todo = todo[:max(0, len(todo) - 1)]
+                if how != 'absent':
+                    for k, _nm, el, _p, _nn in todo:
+                        nb = [b if a == k else a for a, b in t['edges'] if k in (a, b)]
+                        keyof[k] = new_atom(keyof[t['nodes'][0][0]], el, [keyof[x] for x in nb if x in keyof])
+                used.append('request-%s-%s' % (w, how))
+            if rng.random() < 0.3:                                 # an atom nothing accounts for, on a residue with a request
+                new_atom(names['CA'], 'F', [names['CA']])
+                used.append('unrecognised-next-to-request')
+        elif rng.random() < 0.7:
+            d = rng.choice(['phos', 'po', 'oh', 'oph', 'nme', 'cter', 'unknownF', 'po3', 'oh-oph', 'oh-twice', 'ring'])
+            anchor, atoms = DECOR[d]
+            new = []
+            for el, to in atoms:
+                new.append(new_atom(names[anchor], el, [names[anchor] if x == 'anchor' else new[x] for x in (to if isinstance(to, list) else [to])]))
+            used.append(d)
+    for n in nodes:
+        r = next(i for i, names in enumerate(byres) if info[names['CA']]['resid'] == n['resid'])
+        n['request'] = requests.get(r, [])
+    tsel = list(TEMPLATES)
+    rng.shuffle(tsel)
+    order = list(range(len(nodes)))
+    if rng.random() < 0.5:
+        rng.shuffle(order)
+    return {'nodes': nodes, 'edges': edges, 'insertion': [nodes[i]['id'] for i in order]}, tsel, used
 
 
-def _is_d17(kind, sc):
-    """Known finding D17: AssertionError when two groups with different anchor-residue keys touch a common residue."""
-    if 'AssertionError' not in str(sc.get('err', '')):
-        return False
-    groups = _groups(sc['mol'])
-    return any(k1 != k2 and set(k1) & set(k2) for i, (_, k1) in enumerate(groups) for (_, k2) in groups[i + 1:])
-
-
-SIGNATURES = {'D17': _is_d17}
-
-
-class _Cap(logging.Handler):
-    def __init__(self):
-        super().__init__(level=logging.WARNING)
-        self.n = 0
-
-    def emit(self, record):
-        if getattr(record, 'type', '') == 'unknown-input':
-            self.n += 1
-
-
-def run_real(mol_d, templates):
-    import vermouth.processors.canonicalize_modifications as cm
-    from vermouth.molecule import Molecule, Modification
+# ----------------------------------------------------------------------------------------------------------------------
+def build(mol_d, templates, repair=False):
+    """Real objects: a force field holding the templates as Modification (and the residue as Block), the molecule."""
+    from vermouth.molecule import Molecule, Modification, Block
     from vermouth.forcefield import ForceField
     ff = ForceField(name='verif_c14')
-    tindex = {}
-    for ti, t in enumerate(templates, 1):
+    for t in templates:
         m = Modification(force_field=ff)
         m.name = t['name']
         for key, name, el, ptm, newname in t['nodes']:
@@ -161,134 +244,386 @@ def run_real(mol_d, templates):
             m.add_node(key, **attrs)
         m.add_edges_from(t['edges'])
         ff.modifications[t['name']] = m
-        tindex[id(m)] = ti
+    if repair:
+        blk = Block(force_field=ff)
+        blk.name = 'RES'
+        for name, el in BASE:
+            blk.add_node(name, atomname=name, element=el, resname='RES')
+        blk.add_edges_from(BASE_EDGES)
+        ff.blocks['RES'] = blk
     mol = Molecule(force_field=ff)
     byid = {n['id']: n for n in mol_d['nodes']}
     for nid in mol_d['insertion']:
         n = byid[nid]
-        attrs = dict(resid=n['resid'], resname='RES', atomname=n['name'], element=n['el'], chain='A', atomid=nid + 1)
+        attrs = dict(resid=n['resid'], resname='RES', atomname=n['name'], element=n['el'], chain=n.get('chain', 'A'), insertion_code=n.get('icode', ''), atomid=nid + 1)
         if n['ptm']:
             attrs['PTM_atom'] = True
+        if n.get('request'):
+            attrs['modification'] = list(n['request'])
         mol.add_node(nid, **attrs)
     mol.add_edges_from(mol_d['edges'])
-    calls = []
-    orig = cm.identify_ptms
+    return mol
 
-    def spy(residue, residue_ptms, known_ptms):
-        call = {'ptms': [{'atoms': sorted(a), 'anchors': sorted(b)} for a, b in residue_ptms], 'resnodes': sorted(residue.nodes),
-                'outcome': 'unknown', 'cover': []}
-        calls.append(call)
-        result = orig(residue, residue_ptms, known_ptms)
-        call['outcome'] = 'identified'
-        call['cover'] = [{'t': tindex.get(id(ptm), 0), 'match': sorted([a, k] for a, k in match.items())} for ptm, match in result]
-        return result
-    cm.identify_ptms = spy
-    cap = _Cap()
-    logger = logging.getLogger('vermouth')
-    logger.addHandler(cap)
-    try:
-        cm.CanonicalizeModifications().run_molecule(mol)
-    finally:
-        cm.identify_ptms = orig
-        logger.removeHandler(cap)
-    final = [{'id': k, 'name': d.get('atomname'), 'labels': [m.name for m in d.get('modifications', [])]} for k, d in mol.nodes(data=True)]
-    return calls, final, cap.n
+
+def run_real(mol_d, templates, repair=False):
+    mol = build(mol_d, templates, repair)
+    dropped = []
+    if repair:
+        import vermouth.processors.repair_graph as rg
+        before = {k: dict(d) for k, d in mol.nodes(data=True)}
+        mol = rg.RepairGraph(include_graph=False).run_molecule(mol)
+        dropped = [{'key': k, 'resid': d['resid'], 'name': d['atomname'], 'el': d['element'], 'chain': d['chain'], 'req': list(d.get('modification', []))}
+                   for k, d in before.items() if k not in mol.nodes]
+    e = R.record_canonicalize(mol)
+    e['dropped'] = dropped
+    return e
 
 
 def _run_chunk(args):
-    n, seed = args
+    n, seed, family = args
     rng = random.Random(seed)
     out = []
     for _ in range(n):
-        mol_d, templates, used = make_case(rng)
-        e = {'mol': {'nodes': mol_d['nodes'], 'edges': mol_d['edges']}, 'insertion': mol_d['insertion'],
-             'templates': [{'name': t['name'], 'nodes': [{'key': k, 'name': nm, 'el': el, 'ptm': p, 'newname': nn} for k, nm, el, p, nn in t['nodes']],
-                            'edges': [list(x) for x in t['edges']]} for t in templates], 'used': used, 'err': ''}
+        mol_d, templates, used = (make_case if family == 'synthetic' else make_requested_case)(rng)
         try:
-            calls, final, nwarn = run_real(mol_d, templates)
-        except Exception as exc:      # noqa
-            calls, final, nwarn = [], [], 0
-            e['err'] = 'CanonicalizeModifications raised %r' % (exc,)
-        e.update({'calls': calls, 'final': final, 'warnings': nwarn})
+            e = run_real(mol_d, templates, repair=(family == 'requested'))
+        except Exception as exc:      # noqa   (RepairGraph of the requested family)
+            e = {'mol': {'nodes': [], 'adj': []}, 'templates': [], 'calls': [], 'final': [], 'warnings': 0, 'dropped': [],
+                 'err': 'RepairGraph raised %r' % (exc,), 'keys': [], 'shared_label_lists': [], 'frontend_failed': True}
+        e.update({'family': family, 'used': used, 'tnames': [t['name'] for t in templates], 'scenario': {'gen': [mol_d, [t['name'] for t in templates]]}})
         out.append(e)
     return out
 
 
+SIGNATURES = {}      # D16a/b, D17, D27, D28 are fixed in /repo: their inputs are generated and judged like any other
+
+
+# ----------------------------------------------------------------------------------------------------------------------
 def _judge(shard):
+    import shutil
     work = tlc.scratch('c14_')
-    tf = tlc.write_json(work, 'trace.json', [{k: e[k] for k in ('mol', 'templates', 'calls', 'final', 'warnings')} for e in shard])
-    res = tlc.run('Trace_PTM', 'SPECIFICATION Spec\n', dump=True, env={'TRACE_FILE': tf}, workdir=work, workers=1, timeout=3400)
-    return res.distinct, res.generated, {st['tid']: st['verdict'] for st in res.states() if st['verdict'] != 'pending'}
+    try:
+        tf = tlc.write_json(work, 'trace.json', [R.slim(e) for e in shard])
+        res = tlc.run('Trace_PTM', 'SPECIFICATION Spec\n', dump=True, env={'TRACE_FILE': tf}, workdir=work, workers=1, timeout=3400)
+        return res.distinct, res.generated, {st['tid']: (st['verdict'], st['note']) for st in res.states() if st['verdict'] != 'pending'}
+    finally:
+        shutil.rmtree(work, ignore_errors=True)
 
 
-def judge_events(events, ev, vd):
-    shards = common.chunks(events, tlc.NCPU)
-    with mp.Pool(len(shards)) as pool:
-        outs = pool.map(_judge, shards)
-    fam = {}
-    stats = {'groups_identified': 0, 'groups_removed': 0}
+def judge_events(events, ev, vd, nshards=None):
+    judged = [e for e in events if not e.get('frontend_failed')]
+    shards = common.chunks(judged, nshards or tlc.NCPU) if judged else []
+    outs = []
+    if shards:
+        with mp.Pool(len(shards)) as pool:
+            outs = pool.map(_judge, shards)
+    stats = {'groups_identified': 0, 'groups_removed': 0, 'requested_groups_identified': 0, 'runs_with_atoms_dropped_by_request': 0,
+             'atoms_dropped_by_request': 0, 'unjudged': {}, 'decorations': {}, 'identified_by_family': {}, 'verdicts': {}}
     for shard, (d, g, verdicts) in zip(shards, outs):
         ev.states += d
         ev.transitions += g
         for i, e in enumerate(shard, 1):
             ev.traces += 1
             ev.evaluations += 1
-            v = verdicts.get(i, 'no-verdict')
+            v, note = verdicts.get(i, ('no-verdict', ''))
             if e['err']:
                 v = e['err']
+            e['verdict'] = v
             for u in e['used']:
-                fam[u] = fam.get(u, 0) + 1
+                stats['decorations'][u] = stats['decorations'].get(u, 0) + 1
+            fam = stats['identified_by_family'].setdefault(e['family'], {})
             for c in e['calls']:
                 stats['groups_identified' if c['outcome'] == 'identified' else 'groups_removed'] += 1
+                for s in c['cover']:
+                    nm = e['templates'][s['t'] - 1]['name'] if s['t'] else '?'
+                    req = any(s['t'] in e['mol']['nodes'][a - 1]['mods'] for a, _k in s['match'])
+                    fam[nm + (' (requested)' if req else '')] = fam.get(nm + (' (requested)' if req else ''), 0) + 1
+                    stats['requested_groups_identified'] += bool(req)
+            if note.startswith('atoms-dropped-by-request'):
+                stats['runs_with_atoms_dropped_by_request'] += 1
+                stats['atoms_dropped_by_request'] += int(note.split(':')[1])
             if e['calls']:
-                ev.nontrivial_case([e['mol'], [t['name'] for t in e['templates']]])
-            if v != 'ok':
-                vd.violation('trace-rejected', e, '%s with %s: %s' % (e['used'], [t['name'] for t in e['templates']], v))
-    return fam, stats
+                ev.nontrivial_case([e['mol'], e['templates']])
+            key = v.split(' atom=')[0]
+            stats['verdicts'][key] = stats['verdicts'].get(key, 0) + 1
+            if v.startswith('unjudged:'):
+                stats['unjudged'][v] = stats['unjudged'].get(v, 0) + 1
+            elif v != 'ok':
+                sc = {k: e[k] for k in e if k not in ('final',)}
+                sc['final_absent'] = [i for i, f in enumerate(e['final'], 1) if not f['present']]
+                vd.violation('trace-rejected', sc, '%s %s: %s' % (e['family'], e['used'], v))
+    for e in events:
+        if e.get('frontend_failed'):
+            ev.traces += 1
+            e['verdict'] = e['err']
+            vd.violation('trace-rejected', {k: e[k] for k in e if k != 'final'}, '%s %s: %s' % (e['family'], e['used'], e['err']))
+    return stats
+
+
+# ----------------------------------------------------------------------------------------------------------------------
+# real data
+def _real_cases(tier):
+    D, N = R.DEFAULT, R.NEUTRAL
+    q = [
+        # termini: requested (the command always requests them), neutral, not requested (library use), `none`
+        dict(structure='dipro', edits=[], mods=D, label='dipro default termini (C-ter asked of a COOH terminus)'),
+        dict(structure='dipro', edits=[], mods=N, label='dipro -nt'),
+        dict(structure='dipro', edits=[], mods=[], label='dipro, termini not requested'),
+        dict(structure='sheet', edits=[], mods=[], label='sheet, termini not requested (NH3+ / COO-)'),
+        dict(structure='sheet', edits=[['cooh', 'A:29'], ['strip-h', 'A:1', 'N', 1]], mods=[], label='sheet NH2 / COOH termini by atoms, not requested'),
+        dict(structure='sheet', edits=[['cooh', 'A:29'], ['strip-h', 'A:1', 'N', 1]], mods=N, label='sheet NH2 / COOH termini by atoms and -nt'),
+        dict(structure='sheet', edits=[['cooh', 'A:29']], mods=[['nter', 'none'], ['cter', 'none']], label='sheet -nter none -cter none'),
+        # protonation states by atoms, alone and several, and atoms nothing explains
+        dict(structure='sheet', edits=[['protonate', 'A:4', 'OE1', 'HE1']], mods=D, label='sheet GLU4-HE1'),
+        dict(structure='helix', edits=[['protonate', 'A:4', 'OE2', 'HE2'], ['protonate', 'A:8', 'OE1', 'HE1'], ['strip-h', 'A:2', 'NZ', 1], ['halogen', 'A:6', 'CB'],
+                                       ['hydroxyl', 'A:7', 'CB']], mods=D, label='helix GLU-HE2 GLU-HE1 LYS-LSN + fluorine + hydroxyl'),
+        dict(structure='trpcage', edits=[['protonate', 'A:9', 'OD1', 'HD1'], ['strip-h', 'A:8', 'NZ', 2], ['halogen', 'A:2', 'CB']], mods=N,
+             label='trpcage -nt ASP9-HD1, LYS8 with one hydrogen (no modification), fluorine'),
+        dict(structure='hst5', edits=[['protonate', '3', 'ND1', 'HD1'], ['protonate', '16', 'OE2', 'HE2'], ['protonate', '1', 'OD2', 'HD2']], mods=D,
+             label='hst5 HIS3-HD GLU16-HE2 and ASP1-HD2 on the requested N terminus'),
+        dict(structure='lysmodf', edits=[], mods=D, label='prot_modf_charmm as shipped (GLU7 LYS33 ASP18 HIS15)'),
+        # requests (-modify), alone, several, on a terminal residue
+        dict(structure='sheet', edits=[], mods=[['GLU4', 'GLU-HE1'], ['LYS', 'LYS-LSN'], ['TYR3', 'TYRPHOS']] + D, label='sheet -modify GLU4:GLU-HE1 LYS:LYS-LSN TYR3:TYRPHOS'),
+        dict(structure='sheet', edits=[['protonate', 'A:4', 'OE1', 'HE1']], mods=[['A-GLU4', 'GLU-HE1']] + D, label='sheet GLU4-HE1 by atoms and requested'),
+        dict(structure='sheet', edits=[['protonate', 'A:29', 'OE2', 'HE2']], mods=D, label='sheet GLU29-HE2 on the requested C terminus'),
+        dict(structure='sheet', edits=[['protonate', 'A:29', 'OE2', 'HE2']], mods=[['A-GLU29', 'GLU-HE2']] + D, label='sheet -modify GLU29:GLU-HE2 on the C terminus (two requests, one residue)'),
+        dict(structure='sheet', edits=[['protonate', 'A:29', 'OE2', 'HE2']], mods=[], label='sheet GLU29-HE2 and C terminus, nothing requested'),
+        dict(structure='hst5', edits=[], mods=[['HIS3', 'HIS-HP'], ['HIS7', 'HIS-HD'], ['GLU16', 'GLU-HE1']] + N, label='hst5 -modify HIS3:HIS-HP HIS7:HIS-HD GLU16:GLU-HE1 -nt'),
+        # two chains in one molecule; the same modification on several residues
+        dict(structure='3i40', edits=[], mods=D, label='3i40 as shipped (chains A and B joined by disulfides)'),
+        dict(structure='helix', edits=[['protonate', 'A:4', 'OE1', 'HE1'], ['protonate', 'A:5', 'OE1', 'HE1'], ['protonate', 'A:5', 'OE2', 'HE2']], mods=D,
+             label='helix GLU4-HE1, GLU5-HE1-HE2'),
+    ]
+    if tier == 'quick':
+        return q
+    t = [
+        dict(structure='trpcage', edits=[['phospho', 'A:3', 'OH']], mods=D, label='trpcage phosphotyrosine 3'),
+        dict(structure='trpcage', edits=[['phospho', 'A:3', 'OH'], ['strip-h', 'A:8', 'NZ', 1], ['protonate', 'A:9', 'OD2', 'HD2'], ['halogen', 'A:2', 'CB']], mods=[],
+             label='trpcage phosphotyrosine LYS-LSN ASP-HD2 fluorine, termini not requested'),
+        dict(structure='hst5', edits=[['phospho', '10', 'OH'], ['halogen', '4', 'CB'], ['hydroxyl', '9', 'CA'], ['protonate', '16', 'OE2', 'HE2'], ['strip-h', '5', 'NZ', 1],
+                                      ['strip-h', '11', 'NZ', 2], ['protonate', '3', 'ND1', 'HD1']], mods=[], label='hst5 seven changes, termini not requested'),
+        dict(structure='hst5', edits=[['phospho', '24', 'OH']], mods=D, label='hst5 phosphotyrosine on the requested C terminus'),
+        dict(structure='hst5', edits=[['phospho', '24', 'OH']], mods=[], label='hst5 phosphotyrosine on the C terminus, nothing requested'),
+        dict(structure='sheet', edits=[['phospho', 'A:5', 'OH'], ['phospho', 'A:10', 'OH']], mods=N, label='sheet two phosphotyrosines -nt'),
+        dict(structure='villin', edits=[['protonate', 'A:44', 'OD1', 'HD1'], ['protonate', 'A:46', 'OD2', 'HD2'], ['protonate', 'A:45', 'OE1', 'HE1'], ['strip-h', 'A:48', 'NZ', 1]], mods=D,
+             label='villin ASP-HD1 ASP-HD2 GLU-HE1 LYS-LSN'),
+        dict(structure='villin', edits=[], mods=[['nter', 'NCAP-ter'], ['cter', 'CCAP-ter']], label='villin capped termini requested'),
+        dict(structure='villin', edits=[], mods=[['LYS', 'LYS-HZ3'], ['GLU72', 'GLU-HE2'], ['ASP', 'ASP-HD2']] + N, label='villin -modify LYS:LYS-HZ3 GLU72:GLU-HE2 ASP:ASP-HD2 -nt'),
+        dict(structure='helix', edits=[], mods=N, label='helix -nt'),
+        dict(structure='helix', edits=[], mods=[['GLU', 'GLU-HE1'], ['LYS', 'LYS-LSN']] + D, label='helix every GLU and LYS requested'),
+        dict(structure='trpcage', edits=[], mods=[['TYR3', 'TYRPHOS'], ['ASP9', 'ASP-HD2'], ['LYS8', 'LYS-LSN']] + D, label='trpcage three requests'),
+        dict(structure='3i40', edits=[['protonate', 'A:4', 'OE2', 'HE2'], ['protonate', 'B:13', 'OE1', 'HE1']], mods=N, label='3i40 -nt with GLU A4-HE2 and B13-HE1'),
+        dict(structure='lysmodf', edits=[], mods=N, label='prot_modf_charmm -nt'),
+        dict(structure='lysmodf', edits=[], mods=[], label='prot_modf_charmm, termini not requested (LYS1: N-ter and LYS-HZ3 in one residue)'),
+    ]
+    return q + t
+
+
+def _real_family(cases):
+    R._load()                                       # once, in the parent: every case runs in a fresh fork of this state
+    ctx = mp.get_context('fork')
+    with ctx.Pool(min(tlc.NCPU, len(cases)), maxtasksperchild=1) as pool:
+        outs = pool.map(R._case_child, cases, chunksize=1)
+    events, problems = [], []
+    for case, (kind, val) in zip(cases, outs):
+        if kind == 'ok':
+            if not val:
+                problems.append('%s: no molecule reached CanonicalizeModifications' % case['label'])
+            events.extend(val)
+        else:
+            problems.append(val)
+    return events, problems
+
+
+def _real_features(events):
+    """Which features the real runs exercised (read off the records; nothing is decided here)."""
+    f = {}
+
+    def hit(k):
+        f[k] = f.get(k, 0) + 1
+    for e in events:
+        ts = e['templates']
+        if any(n['req'] for n in e['mol']['nodes']) or True:
+            pass
+        for c in e['calls']:
+            if c['outcome'] == 'unknown':
+                hit('unknown-input removal')
+            for s in c['cover']:
+                t = ts[s['t'] - 1]
+                req = any(s['t'] in e['mol']['nodes'][a - 1]['mods'] for a, _k in s['match'])
+                hit('%s %s' % (t['name'], 'requested' if req else 'by atoms'))
+                for a, k in s['match']:
+                    for key, val in t['nodes'][k - 1]['rep']:
+                        hit('replace %s -> %s' % (key, 'None' if val == 'None' else 'value'))
+            if len(c['cover']) >= 2:
+                hit('several modifications in one group of residues')
+            if len(c['ptms']) >= 2:
+                hit('several groups of atoms in one call')
+        if e['dropped']:
+            hit('atoms dropped by RepairGraph on a residue with a request')
+        if len({(n['resid']) for n in e['mol']['nodes']}) < len({n['res'] for n in e['mol']['nodes']}):
+            hit('two residues sharing a number in one molecule')
+    return f
+
+
+REAL_MUST = ['N-ter requested', 'C-ter requested', 'NH2-ter requested', 'COOH-ter requested', 'N-ter by atoms', 'C-ter by atoms', 'NH2-ter by atoms',
+             'COOH-ter by atoms', 'GLU-HE1 by atoms', 'GLU-HE2 by atoms', 'ASP-HD1 by atoms', 'ASP-HD2 by atoms', 'LYS-LSN by atoms', 'LYS-HZ3 by atoms',
+             'HIS-HD by atoms', 'GLU-HE1 requested', 'LYS-LSN requested', 'TYRPHOS requested', 'HIS-HP requested', 'replace atomname -> None',
+             'replace atomname -> value', 'unknown-input removal', 'several modifications in one group of residues',
+             'atoms dropped by RepairGraph on a residue with a request', 'two residues sharing a number in one molecule']
+REAL_MUST_THOROUGH = ['TYRPHOS by atoms', 'NCAP-ter requested', 'CCAP-ter requested', 'LYS-HZ3 requested']
 
 
 def run(tier, seed, ev, vd):
-    ev.rule = ('peptide-like molecules of 1-4 residues with 0-2 decorations per residue from 9 kinds (explainable, sub-pattern, same '
-               'elements / different connectivity, two on one residue, unexplainable) and optional two-residue bridges, against a random '
-               'subset and order of 7 modification templates. Non-trivial = at least one group of unexplained atoms; distinct by input.')
-    ev.assumptions = ['every template has at least one added (PTM) atom', 'an anchor is only renamed by a template that is the sole user of that anchor name (groups are processed one after the other; a renamed anchor no longer matches by name)', 'residues carry no pre-set modifications (the -modify route)',
-                      'a group is removed as a whole when it has no exact cover (allowed by the statement), and must be identified when one exists']
-    n = 640 if tier == 'quick' else 16000
+    ev.rule = ('synthetic: peptide-like molecules of 1-4 residues with 0-2 decorations per residue from 14 kinds (explainable, sub-pattern, same '
+               'elements / different connectivity, placement that must be undone, two on one residue, unexplainable), bridges over two / three residues, two '
+               'bridges on one pair / sharing a residue, two chains, against a random subset and order of 11 modification templates; requested: residues with '
+               '1-2 `modification` requests taken through the real RepairGraph; real: the martinize2 front end on shipped structures with the charmm '
+               'modifications. Non-trivial = at least one group of extra atoms; distinct by (molecule entering CanonicalizeModifications, templates).')
+    ev.assumptions = ['every template has at least one added (PTM) atom and unique atom names',
+                      'an anchor is only renamed by a template that is the sole user of that anchor name (groups are processed one after the other; a renamed anchor no longer matches by name)',
+                      'a group is removed as a whole when it has no exact cover (allowed by the statement), and must be identified when one exists',
+                      'candidate placements lie within the residues (chain, resid, resname, insertion code) of the atoms the group is bonded to; an unrecognised atom listed with a residue it is not bonded to is not generated',
+                      'a requested modification is judged when it has exactly one placement by atom name on the atoms RepairGraph labelled with it and these placements account for all labelled atoms of the group; otherwise the run is counted as unjudged (two requests naming the same new atom, a request on a residue that lacks the anchor)',
+                      'an unrecognised atom bonded to an atom of a requested modification of ANOTHER residue is not generated',
+                      'unrecognised atoms that RepairGraph removes from a residue carrying a request (a request states what the residue shall be: -nt on an NH3+ terminus, `none`) are reported per run by TLC (Note) and counted, not flagged: no log record accompanies the removal',
+                      'the exact cover must be lexicographically largest in the numbers of added atoms ("(3, 2) > (3, 1, 1) > (2, 2, 1)", the documented preference); this clause is evaluated last',
+                      'label multiplicity is not judged (labels are compared as sets)',
+                      'real runs: each case in a fresh process forked after the force fields and the mapping directory were loaded (the state of a martinize2 run)']
+    n_syn, n_req = (640, 240) if tier == 'quick' else (12000, 4000)
+    jobs = [(n_syn // tlc.NCPU, seed * 4513 + i, 'synthetic') for i in range(tlc.NCPU)] + [(n_req // tlc.NCPU, seed * 7919 + 100 + i, 'requested') for i in range(tlc.NCPU)]
+    cases = _real_cases(tier)
+    real_events, problems = _real_family(cases)                      # before any other pool: forks of the loaded parent
     with mp.Pool(tlc.NCPU) as pool:
-        parts = pool.map(_run_chunk, [(n // tlc.NCPU, seed * 4513 + i) for i in range(tlc.NCPU)])
+        parts = pool.map(_run_chunk, jobs)
     events = [e for p in parts for e in p]
-    fam, stats = judge_events(events, ev, vd)
-    ev.extra['decorations_generated'] = fam
-    ev.extra.update(stats)
+    stats = judge_events(events, ev, vd)
+    rstats = judge_events(real_events, ev, vd, nshards=min(tlc.NCPU, max(1, len(real_events))))
+    ev.extra['synthetic_and_requested'] = stats
+    ev.extra['real'] = rstats
+    ev.extra['real_features'] = feats = _real_features(real_events)
+    ev.extra['real_cases_not_run'] = problems
+    ev.tlc_runs.append({'run': 'TRACE Trace_PTM', 'events': len(events) + len(real_events)})
+    # vacuity (only meaningful when nothing was rejected: a rejected run explains a family that is missing)
+    if vd.violations:
+        return
     if stats['groups_identified'] == 0 or stats['groups_removed'] == 0:
-        raise tlc.MachineryError('vacuous: %s' % stats)
-    ev.tlc_runs.append({'run': 'TRACE Trace_PTM', 'events': len(events)})
-    e0 = next(e for e in events if len(e['calls']) >= 2)
-    ev.sample({'kind': 'recorded run judged by TLC', 'decorations': e0['used'], 'templates': [t['name'] for t in e0['templates']],
-               'calls': e0['calls'], 'warnings': e0['warnings']})
+        raise tlc.MachineryError('vacuous: %s' % {k: stats[k] for k in ('groups_identified', 'groups_removed')})
+    dec = stats['decorations']
+    for k in ('tri-bridge', 'bridge-same-pair', 'bridges-sharing-a-residue', 'po3', 'oh-oph', 'oh-twice', 'ring', 'same-number-other-chain', 'same-number-other-icode', 'unrecognised-next-to-request'):
+        if not dec.get(k):
+            raise tlc.MachineryError('vacuous: family %r never generated' % k)
+    ident = stats['identified_by_family']
+    for fam, names in (('synthetic', ['TRI', 'ABRIDGE', 'BRIDGE', 'PO3', 'DIOL', 'OPH', 'OH', 'CTER']),
+                       ('requested', ['PHOS (requested)', 'CTER (requested)', 'NME (requested)', 'OH (requested)', 'PO3 (requested)'])):
+        for nm in names:
+            if not ident.get(fam, {}).get(nm):
+                raise tlc.MachineryError('vacuous: %s family never had %s identified' % (fam, nm))
+    if not any(k.startswith('request-') and k.endswith('-absent') for k in dec) or not any(k.endswith('-partial') for k in dec):
+        raise tlc.MachineryError('vacuous: no requested modification whose atoms had to be rebuilt')
+    if stats['runs_with_atoms_dropped_by_request'] == 0:
+        raise tlc.MachineryError('vacuous: RepairGraph never dropped an atom next to a request')
+    if sum(stats['unjudged'].values()) > 0.2 * n_req:
+        raise tlc.MachineryError('too many requested runs outside the specification: %s' % stats['unjudged'])
+    if len(problems) > (0 if tier == 'quick' else 2):
+        raise tlc.MachineryError('real cases that did not run: %s' % problems)
+    for k in REAL_MUST + (REAL_MUST_THOROUGH if tier != 'quick' else []):
+        if not feats.get(k):
+            raise tlc.MachineryError('vacuous: real family never exercised %r (%s)' % (k, sorted(feats)))
+    e0 = next(e for e in events if len(e['calls']) >= 2 and not e['err'])
+    ev.sample({'kind': 'recorded synthetic run judged by TLC', 'decorations': e0['used'], 'templates': e0['tnames'], 'calls': e0['calls'], 'warnings': e0['warnings'],
+               'verdict': e0['verdict']})
+    e1 = next(e for e in events if e['family'] == 'requested' and e['calls'] and not e['err'])
+    ev.sample({'kind': 'recorded run with requests through RepairGraph', 'used': e1['used'], 'calls': e1['calls'], 'dropped': e1['dropped'], 'verdict': e1['verdict']})
+    e2 = next(e for e in real_events if len(e['calls']) >= 3)
+    ev.sample({'kind': 'recorded front-end run', 'case': e2['scenario']['case'], 'atoms': len(e2['mol']['nodes']), 'calls': e2['calls'], 'warnings': e2['warnings'],
+               'dropped': e2['dropped'], 'verdict': e2['verdict']})
 
 
 def replay(sc):
-    print({k: sc[k] for k in ('used', 'calls', 'warnings')})
-    return 0
+    if 'case' in sc.get('scenario', {}):
+        kind, val = R._case_child(sc['scenario']['case'])
+        events = val if kind == 'ok' else []
+        print(kind, val if kind != 'ok' else '')
+    else:
+        print('synthetic scenario (seeded generator): decorations %s templates %s' % (sc.get('used'), sc.get('tnames')))
+        events = []
+    ev = common.Evidence(PID, 'quick', 0)
+    vd = common.Verdicts(PID, ev)
+    if events:
+        judge_events(events, ev, vd, nshards=1)
+    for e in events:
+        print('molecule %d: %s' % (e['scenario']['molecule'], e['verdict']))
+    print({k: sc.get(k) for k in ('used', 'calls', 'warnings', 'verdict', 'dropped')})
+    return 1 if vd.violations else 0
 
 
 def selftest(seed):
-    import copy
-    events = [e for e in _run_chunk((40, seed)) if any(c['outcome'] == 'identified' for c in e['calls']) and not e['err']]
+    import os
+    events = [e for e in _run_chunk((60, seed, 'synthetic')) if any(c['outcome'] == 'identified' for c in e['calls']) and not e['err']]
     good = events[0]
-    b1 = copy.deepcopy(events[1])
-    for f in b1['final']:
+    bad = []
+    b = copy.deepcopy(events[1])                          # all labels wiped
+    for f in b['final']:
         f['labels'] = []
-    b2 = copy.deepcopy(events[2])
-    c = next(c for c in b2['calls'] if c['outcome'] == 'identified')
+    bad.append(('labels wiped', b))
+    b = copy.deepcopy(events[2])                          # one placement reported twice
+    c = next(c for c in b['calls'] if c['outcome'] == 'identified')
     c['cover'] = c['cover'] + c['cover'][:1]
+    bad.append(('placement twice', b))
+    b = copy.deepcopy(next(e for e in events if any(c['outcome'] == 'unknown' for c in e['calls'])))          # removal without warning
+    b['warnings'] = 0
+    bad.append(('warning dropped', b))
+    b = copy.deepcopy(next(e for e in events if 'oh-twice' in e['used'] and 'DIOL' in e['tnames'] and 'OH' in e['tnames']
+                           and any(e['templates'][s['t'] - 1]['name'] == 'DIOL' for c in e['calls'] for s in c['cover'])))       # smaller modifications preferred
+    for c in b['calls']:
+        for s in list(c['cover']):
+            if b['templates'][s['t'] - 1]['name'] == 'DIOL':
+                oh = 1 + [t['name'] for t in b['templates']].index('OH')
+                atoms = {k: a for a, k in s['match']}
+                c['cover'].remove(s)
+                c['cover'] += [{'t': oh, 'match': [[atoms[1], 1], [atoms[2], 2]]}, {'t': oh, 'match': [[atoms[1], 1], [atoms[3], 2]]}]
+                for f in b['final']:
+                    f['labels'] = [oh if l == s['t'] else l for l in f['labels']]
+                for a in (atoms[2], atoms[3]):
+                    b['final'][a - 1]['attrs'] = [['atomname', 's:OGX']]
+    bad.append(('OH twice instead of DIOL', b))
+    req = [e for e in _run_chunk((60, seed + 1, 'requested')) if not e['err'] and any(n['mods'] and n['ptm'] for n in e['mol']['nodes'])]
+    good2 = req[0]
+    b = copy.deepcopy(req[1])                             # an atom of a requested modification removed
+    a = next(i for i, n in enumerate(b['mol']['nodes'], 1) if n['mods'] and n['ptm'])
+    b['final'][a - 1] = {'present': False, 'labels': [], 'attrs': []}
+    bad.append(('requested atom removed', b))
+    b = copy.deepcopy(req[2])                             # the placement of a requested modification not reported
+    for c in b['calls']:
+        c['cover'] = [s for s in c['cover'] if not any(s['t'] in b['mol']['nodes'][x - 1]['mods'] for x, _k in s['match'])]
+    bad.append(('requested placement missing', b))
+    R._load()
+    kind, real = R._case_child(dict(structure='sheet', edits=[['protonate', 'A:4', 'OE1', 'HE1']], mods=[['TYR3', 'TYRPHOS']] + R.DEFAULT, label='selftest'))
+    assert kind == 'ok' and real, (kind, real)
+    good3 = real[0]
+    b = copy.deepcopy(good3)                              # `replace` not applied: the tyrosine hydrogen keeps its name
+    hh = next(i for i, n in enumerate(b['mol']['nodes'], 1) if n['name'] == 'HH')
+    b['final'][hh - 1]['attrs'] = [['atomname', 's:HH']]
+    bad.append(('real: replace not applied', b))
+    b = copy.deepcopy(good3)                              # the label written on the neighbouring residue as well
+    he1 = next(i for i, n in enumerate(b['mol']['nodes'], 1) if n['name'] == 'HE1' and n['ptm'])
+    t = next(s['t'] for c in b['calls'] for s in c['cover'] if any(a == he1 for a, _k in s['match']))
+    other = next(i for i, n in enumerate(b['mol']['nodes'], 1) if n['res'] == b['mol']['nodes'][he1 - 1]['res'] + 1)
+    b['final'][other - 1]['labels'] = b['final'][other - 1]['labels'] + [t]
+    bad.append(('real: label on another residue', b))
     ev = common.Evidence(PID, 'quick', seed)
     vd = common.Verdicts(PID, ev)
-    judge_events([good, b1, b2], ev, vd)
-    assert len(vd.violations) == 2, vd.violations
-    print('selftest C14: tampered runs rejected:', [d.split(': ')[-1] for k, p, d in vd.violations])
-    import os
+    all_events = [good, good2, good3] + [b for _n, b in bad]
+    for e in all_events:
+        e.setdefault('scenario', {})
+    judge_events(all_events, ev, vd, nshards=2)
+    assert good['verdict'] == 'ok' and good2['verdict'] == 'ok' and good3['verdict'] == 'ok', (good['verdict'], good2['verdict'], good3['verdict'])
+    for name, b in bad:
+        assert b['verdict'] != 'ok' and not b['verdict'].startswith('unjudged'), (name, b['verdict'])
+    print('selftest C14: untampered runs accepted; tampered runs rejected:')
+    for name, b in bad:
+        print('  %-32s -> %s' % (name, b['verdict']))
     for k, p, d in vd.violations:
         os.path.exists(p) and os.remove(p)
     return 0
